@@ -15,33 +15,56 @@ Inductive c10case :=
    acc_s / acc_l: the Python transcription of the Spec with exp = now-leeway
    rejected / allowed (only meaningful when dom). *)
 | CVal (now : Z) (lw : option Z) (opts : copts) (claims : cclaims) (expect : res unit)
-       (dom acc_s acc_l : bool).
+       (dom acc_s acc_l : bool)
+(* ClaimsRegistry(...).validate(claims); acc: transcription of accepts_base *)
+| CBase (opts : copts) (claims : cclaims) (expect : res unit) (dom acc : bool)
+(* one registry object validating the claims sets h in this order *)
+| CSeq (now lw : Z) (opts : copts) (h : list cclaims) (expect : list (res unit))
+(* reg.validate_<k>(v) called directly, k one of aud / exp / nbf / iat *)
+| CMethod (now lw : Z) (opts : copts) (k : str) (v : pv) (expect : res unit)
+(* reg.check_value(k, v) called directly *)
+| CCheckValue (opts : copts) (k : str) (v : pv) (expect : res unit).
 
 Definition unit_eqb (a b : unit) : bool := true.
 
-Definition c10_model (c : c10case) : res unit :=
+Definition c10_model (c : c10case) : list (res unit) :=
   match c with
-  | CVal now (Some lw) opts claims _ _ _ _ => validate now lw opts claims
-  | CVal now None opts claims _ _ _ _ => validate_default now opts claims
+  | CVal now (Some lw) opts claims _ _ _ _ => [validate now lw opts claims]
+  | CVal now None opts claims _ _ _ _ => [validate_default now opts claims]
+  | CBase opts claims _ _ _ => [validate_base opts claims]
+  | CSeq now lw opts h _ => fst (run_history (registry_init now lw opts) h)
+  | CMethod now lw opts k v _ => [check_claim now lw opts k v]
+  | CCheckValue opts k v _ => [check_value opts k v]
   end.
 
-Definition c10_lw (c : c10case) : Z :=
-  match c with CVal _ (Some lw) _ _ _ _ _ _ => lw | CVal _ None _ _ _ _ _ _ => c10_default_leeway end.
+Definition c10_lw (lw : option Z) : Z :=
+  match lw with Some lw => lw | None => c10_default_leeway end.
 
 Definition c10_check (c : c10case) : bool :=
   match c with
   | CVal now lw opts claims expect dom acc_s acc_l =>
-      res_eqb unit_eqb (c10_model c) expect &&
+      list_eqb (res_eqb unit_eqb) (c10_model c) [expect] &&
       Bool.eqb (wf_opts opts && json_claims claims) dom &&
-      (if dom then Bool.eqb (accepts now (c10_lw c) opts claims) acc_s &&
-                   Bool.eqb (accepts_gen false now (c10_lw c) opts claims) acc_l
+      (if dom then Bool.eqb (accepts now (c10_lw lw) opts claims) acc_s &&
+                   Bool.eqb (accepts_gen false now (c10_lw lw) opts claims) acc_l
        else true)
+  | CBase opts claims expect dom acc =>
+      list_eqb (res_eqb unit_eqb) (c10_model c) [expect] &&
+      Bool.eqb (wf_opts opts && json_claims claims) dom &&
+      (if dom then Bool.eqb (accepts_base opts claims) acc else true)
+  | CSeq _ _ _ _ expect => list_eqb (res_eqb unit_eqb) (c10_model c) expect
+  | CMethod _ _ _ k _ expect =>
+      str_mem k c10_validate_methods && list_eqb (res_eqb unit_eqb) (c10_model c) [expect]
+  | CCheckValue _ _ _ expect => list_eqb (res_eqb unit_eqb) (c10_model c) [expect]
   end.
 
-(* model verdict, in-domain flag, Spec strict / lenient *)
-Definition c10_show (c : c10case) : res unit * bool * bool * bool :=
+(* model verdict(s), in-domain flag, Spec strict / lenient (or accepts_base twice) *)
+Definition c10_show (c : c10case) : list (res unit) * bool * bool * bool :=
   match c with
   | CVal now lw opts claims _ _ _ _ =>
       (c10_model c, wf_opts opts && json_claims claims,
-       accepts now (c10_lw c) opts claims, accepts_gen false now (c10_lw c) opts claims)
+       accepts now (c10_lw lw) opts claims, accepts_gen false now (c10_lw lw) opts claims)
+  | CBase opts claims _ _ _ =>
+      (c10_model c, wf_opts opts && json_claims claims, accepts_base opts claims, accepts_base opts claims)
+  | _ => (c10_model c, false, false, false)
   end.
